@@ -33,4 +33,6 @@ finally:
     subprocess.run(["git", "-C", "/repo", "checkout", "--", "."], check=True)
     # evidence files were rewritten by runs on a modified tree: restore the committed ones
     subprocess.run(["git", "-C", V, "checkout", "--", "evidence"], check=False)
+    # … and the generated tables were regenerated from the modified tree: restore the committed snapshot (the next check regenerates them anyway)
+    subprocess.run(["git", "-C", V, "checkout", "--", os.path.join("lean", "RitiModel", "Gen")], check=False)
 print(json.dumps(res))
